@@ -1,10 +1,36 @@
 (** C18 — the bounds mini-language.  Statements only.
-    Proved: soundness of acceptance (what is accepted is well-formed), rejection before any
-    input, plain text rendering.  The full "accepted iff" is checked exhaustively up to a
+    Proved: "accepted iff in the language" for single bounds and for lists without format
+    text, against a grammar written from the documentation (Spec/BoundsGrammar.v), with the
+    bounds the grammar assigns; soundness of acceptance; rejection before any input; plain
+    text rendering.  For format strings ({...}) the "iff" is checked exhaustively up to a
     length bound by the run (every string over the statement's alphabet), not proved. *)
 From TucModel Require Import Base.Bytes Model.Bounds Model.BoundsParse Model.Opt Model.Args Model.Main
-     Spec.Resolve Proofs.BoundsFacts Proofs.C06 Proofs.ParseFacts Proofs.C18.
+     Spec.Resolve Spec.Fields Spec.BoundsGrammar Proofs.BoundsFacts Proofs.C06 Proofs.ParseFacts Proofs.C18 Proofs.C18Iff.
 Local Open Scope Z_scope.
+
+(** i32::from_str as used by Side::from_str: optional single sign, at least one digit,
+    32-bit range *)
+Theorem C18_integer_iff :
+  forall (s : bytes) (v : Z), parse_i32 s = Some v <-> int_lit s v /\ in_i32 v.
+Proof. exact parse_i32_iff. Qed.
+
+(** a single bound is accepted iff it is N, N:M, N: or :M with non-zero 32-bit integers, a
+    same-sign range not decreasing, optionally followed by '=' and any fallback text (which
+    may contain ':' and '='); the bound built is the one the grammar assigns *)
+Theorem C18_bound_accepted_iff :
+  forall (s : bytes) (b : ubound), parse_bound s = Some b <-> bound_text s b.
+Proof. exact parse_bound_iff. Qed.
+
+(** a list without format text is accepted iff it is a comma-separated list of such bounds *)
+Theorem C18_list_accepted_iff :
+  forall s : bytes, existsb is_brace s = false ->
+    ((exists u, parse_ublist s = Some u) <-> (exists bs, csv_text s bs)).
+Proof. exact parse_ublist_iff. Qed.
+
+Theorem C18_list_structure :
+  forall (s : bytes) (u : ublist), existsb is_brace s = false -> parse_ublist s = Some u ->
+    exists bs, csv_text s bs /\ items u = mark_last (map Bound bs).
+Proof. exact parse_ublist_structure. Qed.
 
 Theorem C18_accepted_bound_is_well_formed :
   forall (s : bytes) (b : ubound), parse_bound s = Some b ->
@@ -36,3 +62,19 @@ Print Assumptions C18_accepted_bound_is_well_formed.
 Print Assumptions C18_accepted_list_has_no_zero_index.
 Print Assumptions C18_rejected_before_any_input.
 Print Assumptions C18_plain_text_is_reproduced.
+Print Assumptions C18_integer_iff.
+Print Assumptions C18_bound_accepted_iff.
+Print Assumptions C18_list_accepted_iff.
+Print Assumptions C18_list_structure.
+
+(** non-vacuity: -2:=a:b=c is in the language (a negative index, an open right side, a
+    fallback holding ':' and '='), 3:2 and 0 are not *)
+Example C18_grammar_examples :
+  bound_text [45;50;58;61;97;58;98;61;99]%N (mkB (SSome (-2)) SCont false (Some [97;58;98;61;99]%N))
+  /\ parse_bound [51;58;50]%N = None /\ parse_bound [48]%N = None.
+Proof.
+  split; [|split; reflexivity].
+  apply (bt_fallback [45;50;58]%N [97;58;98;61;99]%N (SSome (-2)) SCont).
+  apply (rt_from [45;50]%N (-2)). split; [|split; [unfold in_i32; lia | lia]].
+  exact (il_minus [50]%N ltac:(discriminate) ltac:(repeat constructor; unfold digit; lia)).
+Qed.
